@@ -513,3 +513,97 @@ def r12_merge_operand_order(ctx):
 
 
 RULES += [r12_merge_operand_order]
+
+
+def r13_merge_apply_operand_order(ctx):
+    ctx.rule("C19.r13", "patricia merge(s, t, op, combine_left_to_right): where a value of s meets a value of t the op is applied as "
+             "op(key, value of s, value of t) when combine_left_to_right holds and with the two swapped otherwise - in BOTH leaf cases "
+             "(s is a leaf, t is a leaf); the two blocks differ only in which tree `b` and `*value` come from, so a copy of one into the "
+             "other computes t[k] OP s[k], which for widening means that a bound is not extrapolated", floor=2)
+    fs = ctx.db.fns(PT, pk=TREE + "::merge")
+    if not ctx.need(fs, "tree::merge"):
+        return
+    seen = set()
+    n = 0
+    for fn in fs:
+        if fn["line"] in seen or len(fn.get("params", [])) < 4:
+            continue
+        seen.add(fn["line"])
+        body = fn["body"]
+        decls = local_decls(body)
+
+        def origin(e, depth=0):
+            """0 if the value comes from s, 1 if from t"""
+            hits = set()
+            e0 = strip_move(e)
+            while isinstance(e0, dict) and e0.get("k") in ("ctor", "construct") and len(e0.get("a", [])) == 1:
+                e0 = strip_move(e0["a"][0])
+            if isinstance(e0, dict) and e0.get("k") == "call" and e0.get("o") is not None and (callee(e0) or {}).get("name") in ("find", "binding", "lookup"):
+                e = e0["o"]          # X->find(key) / X->binding(): the value comes from X whatever the key is
+            for x in walk(e):
+                if not (isinstance(x, dict) and x.get("k") == "ref"):
+                    continue
+                for i in (0, 1):
+                    if is_param(x, fn, i):
+                        hits.add(i)
+                if x.get("rk") == "local" and depth < 3:
+                    d = decls.get(x.get("id"))
+                    if d is not None and "i" in d:
+                        o = origin(d["i"], depth + 1)
+                        if o is not None:
+                            hits.add(o)
+            return hits.pop() if len(hits) == 1 else None
+        for c in walk(body):
+            if not (isinstance(c, dict) and c.get("k") == "cond"):
+                continue
+            cc = strip(c.get("c"))
+            if not (isinstance(cc, dict) and cc.get("k") == "ref" and is_param(cc, fn, 3)):
+                continue
+            t_, e_ = strip_move(c.get("t")), strip_move(c.get("e"))
+            for br, call in ((True, t_), (False, e_)):
+                while isinstance(call, dict) and call.get("k") in ("ctor", "construct") and len(call.get("a", [])) == 1:
+                    call = strip_move(call["a"][0])
+                if not (is_call(call, name="apply") and len(call.get("a", [])) == 3):
+                    continue
+                o1, o2 = origin(call["a"][1]), origin(call["a"][2])
+                n += 1
+                want = (0, 1) if br else (1, 0)
+                if (o1, o2) == want:
+                    ctx.ok("op.apply(%s, %s) on the %s branch" % (src(call["a"][1])[:14], src(call["a"][2])[:14], "left-to-right" if br else "right-to-left"), fn, call)
+                elif o1 is None or o2 is None:
+                    ctx.undecided("tree::merge: cannot tell which tree `%s` / `%s` come from" % (src(call["a"][1])[:20], src(call["a"][2])[:20]), fn, call)
+                else:
+                    ctx.bad("tree::merge applies the op with the values of the two trees in the wrong order on the %s branch (`%s`): "
+                            "{k4 -> [0,0], k5 -> [7,7]} widen {k4 -> [0,1]} gives k4 -> [0,1] instead of [0,+oo]" %
+                            ("combine_left_to_right" if br else "right-to-left", src(call)[:60]), fn, call, sig="merge-apply-swapped")
+    if n == 0:
+        ctx.fail("rule C19.r13: no `combine_left_to_right ? op.apply(..) : op.apply(..)` found in tree::merge")
+
+
+RULES += [r13_merge_apply_operand_order]
+
+
+def r14_pair_domain_meet_pointwise(ctx):
+    ctx.rule("C19.r14", "discrete_pair_domain: bottom is the EMPTY SET of pairs, not failure, so its meet functor never reports `the whole "
+             "result is bottom` (first component true) when one key meets to the empty set - that key is dropped and the others keep "
+             "their pairs; otherwise {e1->{e10}, e2->{e30}} & {e1->{e20}, e2->{e30}} is {} instead of {e2->{e30}}", floor=1)
+    DD = "include/crab/domains/discrete_domains.hpp"
+    fs = [f for f in ctx.db.fns(DD, name="apply") if "discrete_pair_domain" in (f.get("cpk") or "") and "meet_op" in (f.get("cpk") or "") and f.get("body")]
+    if not ctx.need(fs, "discrete_pair_domain::meet_op::apply"):
+        return
+    fn = fs[0]
+    bad = None
+    for r in walk(fn["body"]):
+        if r.get("k") != "ret" or r.get("v") is None:
+            continue
+        lits = [x for x in walk(r["v"]) if isinstance(x, dict) and x.get("k") == "lit" and x.get("v") in ("true", "false")]
+        if lits and lits[0].get("v") == "true":
+            bad = r
+    if bad is not None:
+        ctx.bad("discrete_pair_domain::meet_op::apply reports bottom for the whole map when one key meets to the empty set: the meet is not "
+                "pointwise and drops the pairs of every other key", fn, bad, sig="pair-meet-bottom-absorbing")
+    else:
+        ctx.ok("the meet functor never reports bottom", fn, fn["body"])
+
+
+RULES += [r14_pair_domain_meet_pointwise]
